@@ -363,13 +363,20 @@ class Check:
 def main(argv):
     if len(argv) >= 2 and argv[1] == "--setup":
         d, info = build.build_objects(need_cxx=True)
-        import glob
-        exes = ["mm_" + os.path.basename(f)[:-9].lower() for f in glob.glob(os.path.join(build.LEAN, "Driver", "*Main.lean"))]
-        ok, out = build.lake_build(["MptModel"] + sorted(exes))
         print(info)
+        ok, out = build.lake_build(["MptModel"])
         if not ok:
             print(out[-4000:])
             return 1
+        man = json.load(open(os.path.join(VERIF, "MANIFEST.json")))
+        for c in man.get("checks", []):
+            prop = importlib.import_module("vlib.props." + c["property_id"].lower())
+            ok, out = build.lake_build(["MptModel.Props." + prop.id, "mm_" + prop.area])
+            print("setup", prop.id, "ok" if ok else "FAILED\n" + out[-1500:])
+            try:
+                build.build_driver(prop.driver, d, cxx=getattr(prop, "cxx", False), extra=getattr(prop, "link_extra", ()))
+            except build.BuildError as e:
+                print("setup", prop.id, "driver FAILED", str(e)[:1500])
         return 0
     if len(argv) < 2:
         print("usage: check <Cxx> [--tier quick|thorough] [--replay file] | --setup | --relock Cxx")
